@@ -203,6 +203,21 @@ func Load(dir string, libs []string, minPkgs int) (*World, error) {
 	return w, nil
 }
 
+// IsLibFunc: f belongs to a library package of the module — directly, or as an
+// instance of one of its generic functions (go/ssa gives instances no package).
+func (w *World) IsLibFunc(f *ssa.Function) bool {
+	if f == nil {
+		return false
+	}
+	if f.Pkg != nil {
+		return w.IsLib[f.Pkg]
+	}
+	if o := f.Origin(); o != nil && o != f && o.Pkg != nil {
+		return w.IsLib[o.Pkg]
+	}
+	return false
+}
+
 func (w *World) relPkg(p *types.Package) string {
 	if p == nil {
 		return ""
